@@ -104,7 +104,10 @@ class Gen:
         elif k == "save":
             self.ops.append({"op": "save"})
         elif k == "restart":
-            self.ops.append({"op": "restart"})
+            op = {"op": "restart"}
+            if self.cfg.get("idx_cache") and self.profile.get("drop_index") and rng.random() < self.profile["drop_index"]:
+                op["drop_index"] = True      # the index files are gone at start-up: the server rebuilds them from the logs
+            self.ops.append(op)
         elif k == "dump":
             self.ops.append(self.base({"op": "dump", "partition": 1}))
         elif k == "purge":
@@ -417,7 +420,7 @@ PROFILES = {
             {"restart": 5, "purge": 2, "max_size": True, "maintain": 4, "poll_after_each": 0.4, "max_ops": 28}],
     "C02": [{"restart": 5, "purge": 1, "poll_after_each": 0.2, "max_ops": 36},
             {"restart": 5, "purge": 1, "maintain": 5, "advance": 5, "expiry": True, "poll_after_each": 0.2, "max_ops": 36}],
-    "C03": [{"restart": 18, "purge": 2, "maintain": 4, "advance": 4, "expiry": True, "dedup": True, "poll_after_each": 0.6, "max_ops": 30, "groups": True, "offsets": 5}],
+    "C03": [{"restart": 18, "purge": 2, "maintain": 4, "advance": 4, "expiry": True, "dedup": True, "poll_after_each": 0.6, "max_ops": 30, "groups": True, "offsets": 5, "drop_index": 0.3}],
     "C07": [{"restart": 6, "purge": 4, "groups": True, "offsets": 28, "poll_after_each": 0.1, "max_ops": 36}],
     "C14": [{"restart": 6, "purge": 1, "maintain": 12, "advance": 12, "expiry": True, "update": 4, "poll_after_each": 0.4, "max_ops": 34}],
     "C15": [{"restart": 4, "purge": 1, "maintain": 10, "advance": 2, "max_size": True, "update": 4, "poll_after_each": 0.3, "stats": 6, "max_ops": 34, "decoy": True}],
